@@ -587,11 +587,78 @@ def r8_package_never_opts_into_the_deleting_reader(repo=None):
     return r
 
 
+def r9_read_metadata_forwards_the_query(repo=None):
+    """'range reads return it' through the RF reader as well: DigitalRFReader.read_metadata answers from the metadata reader of the
+    channel it was asked about, with the range and the fill method it was given - the reader comes from
+    self.get_digital_metadata(<channel parameter>), its read() receives the method's own start, end and method parameters, and
+    what read() returned is what the method returns (after the inherent properties are merged in)."""
+    r = Rule("C20.R9", "DigitalRFReader.read_metadata hands its own range, fill method and channel to the channel's metadata reader")
+    m = pyfront.mod("digital_rf_hdf5", repo)
+    q = "DigitalRFReader.read_metadata"
+    f = m.flat(q).fn() if q in m.functions else None
+    if f is None:
+        raise AnalysisError("%s not found" % q)
+    params = [a.arg for a in f.args.args if a.arg != "self"]
+    if len(params) < 3:
+        raise AnalysisError("%s: parameters not recognised" % q)
+    getters = [n for n in ast.walk(f) if isinstance(n, ast.Assign) and isinstance(n.value, ast.Call) and pyfront.call_name(n.value) == "self.get_digital_metadata"
+               and len(n.targets) == 1 and isinstance(n.targets[0], ast.Name)]
+    if len(getters) != 1:
+        raise AnalysisError("%s: `<reader> = self.get_digital_metadata(...)` not found exactly once" % q)
+    g0 = getters[0]
+    rd = g0.targets[0].id
+    ch_arg = g0.value.args[0] if g0.value.args else pyfront.kwarg(g0.value, "channel_name")
+    ch_param = [p_ for p_ in params if "channel" in p_]
+    site = "%s:%s %s" % (m.rel, g0.lineno, q)
+    if isinstance(ch_arg, ast.Name) and ch_param and ch_arg.id == ch_param[0] and len(g0.value.args) + len(g0.value.keywords) == 1:
+        r.ok(site, "the metadata reader of the channel asked about (`%s`)" % ch_param[0])
+    elif isinstance(ch_arg, ast.Name) and ch_arg.id in params:
+        r.violation(m.rel, q, norm(ast.unparse(g0.value)), "the metadata reader is looked up with `%s`, not with the channel parameter" % ch_arg.id, line=g0.lineno)
+    else:
+        raise AnalysisError("%s: argument of get_digital_metadata not recognised" % q)
+    reads = [c for c in ast.walk(f) if isinstance(c, ast.Call) and isinstance(c.func, ast.Attribute) and c.func.attr == "read"
+             and isinstance(c.func.value, ast.Name) and c.func.value.id == rd]
+    if len(reads) != 1:
+        raise AnalysisError("%s: `%s.read(...)` not found exactly once" % (q, rd))
+    c = reads[0]
+    rm = pyfront.mod("digital_metadata", repo).fn("DigitalMetadataReader.read")
+    rparams = [a.arg for a in rm.args.args if a.arg != "self"]
+    bound = {}
+    for i, a in enumerate(c.args):
+        if i < len(rparams):
+            bound[rparams[i]] = a
+    for k in c.keywords:
+        if k.arg:
+            bound[k.arg] = k.value
+    start_p = [p_ for p_ in params if "start" in p_]
+    end_p = [p_ for p_ in params if "end" in p_]
+    meth_p = [p_ for p_ in params if "method" in p_]
+    if not (start_p and end_p and meth_p) or not all(k in rparams for k in ("start_sample", "end_sample", "method")):
+        raise AnalysisError("%s: start / end / method parameters of the two read functions not recognised" % q)
+    for rk, pp in (("start_sample", start_p[0]), ("end_sample", end_p[0]), ("method", meth_p[0])):
+        a = bound.get(rk)
+        site = "%s:%s %s read(%s=...)" % (m.rel, c.lineno, q, rk)
+        if isinstance(a, ast.Name) and a.id == pp:
+            r.ok(site, "the caller's `%s`" % pp)
+        elif a is None:
+            r.violation(m.rel, q, "%s.read(...) without %s" % (rd, rk), "the query's `%s` does not reach the metadata reader: its default is used "
+                        "instead (a range read returns one sample / no forward fill)" % pp, line=c.lineno)
+        elif isinstance(a, ast.Name) and a.id in params:
+            r.violation(m.rel, q, "%s.read(%s=%s)" % (rd, rk, a.id), "the metadata reader receives `%s` where the query's `%s` belongs" % (a.id, pp), line=c.lineno)
+        elif isinstance(a, ast.Constant):
+            r.violation(m.rel, q, "%s.read(%s=%s)" % (rd, rk, norm(ast.unparse(a))), "the metadata reader receives a constant where the query's `%s` "
+                        "belongs" % pp, line=c.lineno)
+        else:
+            raise AnalysisError("%s: argument `%s` of %s.read not recognised" % (q, norm(ast.unparse(a))[:40], rd))
+    r.guard(4)
+    return r
+
+
 def rules(repo=None):
     from . import c12
     return [lambda: r8_package_never_opts_into_the_deleting_reader(repo), lambda: r1_read_roles(repo), lambda: r2_write_closed_on_return(repo), lambda: r3_stateless_reader(repo),
             lambda: r4_latest_is_ffill(repo), lambda: c12.r2_range_filter(repo, rid="C20.R5"),
-            lambda: c12.r3_numeric_key_order(repo, rid="C20.R6"), lambda: r7_cache_keys_complete(repo)]
+            lambda: c12.r3_numeric_key_order(repo, rid="C20.R6"), lambda: r7_cache_keys_complete(repo), lambda: r9_read_metadata_forwards_the_query(repo)]
 
 
 EXPLANATION = (
@@ -607,7 +674,9 @@ EXPLANATION = (
     'depends on (def-use slice). R7 also: the dependence closure of a memoised value is cut at the names of its key, and '
     'a value chosen by a loop under a file-system probe needs the chosen loop element in the key. R8: every construction '
     'of DigitalMetadataReader inside the package leaves accept_empty at its default True or passes True (the deleting '
-    'option of the recorded finding F10a is never taken by a read path of the package). Does NOT decide HDF5 visibility.')
+    'option of the recorded finding F10a is never taken by a read path of the package). Does NOT decide HDF5 visibility. '
+    'R9: DigitalRFReader.read_metadata obtains the reader with its channel parameter and hands its own start, end and '
+    "method to that reader's read().")
 TECHNIQUE = ('Python ast; package call graph with provenance partition of paths; context-manager/generator exhaustion; store-on-self table')
 ASSUMPTIONS = ["zip() pulls from its first iterable first", "h5py's default file mode is 'r'",
                "the mutator table (vp.pycalls.MUTATORS) is complete for the standard library calls this package uses"]
